@@ -96,6 +96,22 @@ def run(variants, jobs=None, verbose=True):
     return results, fails
 
 
+def _rename_probe(prop, seed):
+    """The check on the global private-rename overlay (renames.py)."""
+    from ..cli import run_property
+    from . import renames
+
+    ov, mapping = renames.overlay(seed)
+    if not ov:
+        return ("rename-all-private", "stale", "")
+    code, chk, err = run_property(prop, "quick", 0, overlay=ov, write=False, quiet=True)
+    if code == 0:
+        return ("rename-all-private", "ok", f"{len(mapping)} private identifiers renamed, silent")
+    if code == 1:
+        return ("rename-all-private", "FAIL", "false alarm on a pure rename: " + "; ".join(f"{f.rule} {f.message[:80]}" for f in chk.findings[:2]))
+    return ("rename-all-private", "FAIL", f"analysis error on a pure rename: {err}")
+
+
 def run_for_property(prop, seed=0, verbose=True):
     from .variants import VARIANTS
 
@@ -103,6 +119,13 @@ def run_for_property(prop, seed=0, verbose=True):
     if not vs:
         return 0, {"variants": 0}
     results, fails = run(vs, verbose=verbose)
+    rp = _rename_probe(prop, seed)
+    if verbose and rp[1] != "ok":
+        print(f"  selftest {rp[0]}: {rp[1]} {rp[2]}")
+    results.append(rp)
+    vs = vs + [{"id": rp[0], "kind": "refactor"}]
+    if rp[1] == "FAIL":
+        fails = fails + [rp]
     summary = {
         "variants": len(vs),
         "mutants_detected": sum(1 for v, r in zip(vs, results) if v["kind"] == "mutant" and r[1] == "ok"),
